@@ -355,16 +355,11 @@ fn flip_range(mid: u8, rec: usize, from: usize, to: usize) {
 // the last record of a two-record chunk (Commit: 4 type + 2 id + 8 checksum),
 // one altered position per harness (two positions in one harness ran out of
 // memory: every `Chunk::open` with the real CRC carries its symbolic checksum
-// branches along). Positions 0..2: the high bytes of the type word (any change
-// gives an unknown type), 4..5: the id, 6..13: the checksum field. Position 3
-// (low byte of the type word: the record is re-read as every other kind) ran
-// out of memory and is not covered.
-// @harness name=c09_flip_p00 prop=C09 tier=thorough timeout=1500 fs=128
-replay_proof! { unwind = 16, crc = real, fn c09_flip_p00() { flip_range(2, 2, 0, 1); } }
-// @harness name=c09_flip_p01 prop=C09 tier=thorough timeout=1500 fs=128
-replay_proof! { unwind = 16, crc = real, fn c09_flip_p01() { flip_range(2, 2, 1, 2); } }
-// @harness name=c09_flip_p02 prop=C09 tier=thorough timeout=1500 fs=128
-replay_proof! { unwind = 16, crc = real, fn c09_flip_p02() { flip_range(2, 2, 2, 3); } }
+// branches along). Positions 4..5: the id, 6..13: the checksum field. The
+// type word (positions 0..3) is not covered here: a symbolic type makes
+// symbolic execution re-read the record as every kind (out of memory / 25 min
+// timeout); unknown types are rejected at decoder level (c09_eof_unknown*,
+// c12_dec_badtag_k).
 // @harness name=c09_flip_p04 prop=C09 tier=quick timeout=1500 fs=128
 replay_proof! { unwind = 16, crc = real, fn c09_flip_p04() { flip_range(2, 2, 4, 5); } }
 // @harness name=c09_flip_p05 prop=C09 tier=thorough timeout=1500 fs=128
